@@ -15,9 +15,11 @@ theorem G01_fit_translated :
     (Funcs.recordFitsGuard_translated) = true := by decide
 
 /-- The allocation guard of the record reader: "the claimed record does not fit in the file". -/
-theorem G01_recordFitsGuard (off rs : BitVec 32) (fsize : BitVec 64) (hf : fsize.toNat < 2 ^ 63) :
-    Funcs.recordFitsGuard off rs fsize = decide (fsize.toNat < off.toNat + rs.toNat) := by
-  unfold Funcs.recordFitsGuard
+theorem G01_recordFitsGuard (off ks vs : BitVec 32) (fsize : BitVec 64) (hf : fsize.toNat < 2 ^ 63)
+    (hsz : ks.toNat + vs.toNat + 10 < 2 ^ 32) :
+    Funcs.recordFitsGuard (f_f_size := fsize) (f_offset := off) (v_keySize := ks) (v_valueSize := vs)
+      = decide (fsize.toNat < off.toNat + (ks.toNat + vs.toNat + 10)) := by
+  unfold Funcs.recordFitsGuard Funcs.encodedRecordSize
   rw [slt_toNat _ _ (by bv_omega) (by bv_omega)]
   simp only [Bool.decide_eq_true, decide_eq_decide]
   bv_omega
